@@ -27,6 +27,8 @@ UNIV = {
     # three / four hashes of one home slot at the end of the table (runs that wrap around): small enough to enumerate HISTORIES with look-ups
     "G": (5, [(28, 1), (28, 2), (28, 3)]),
     "H": (5, [(28, 1), (28, 2), (28, 3), (0, 1)]),
+    # six home slots + a second remainder: enough elements to cross load factors 1/2 and 85/100 of an 8-slot table (setter instances)
+    "I": (5, [(hi, 1) for hi in (0, 4, 8, 16, 24, 28)] + [(28, 2)]),
 }
 
 
@@ -34,7 +36,7 @@ def hval(hb, h):
     return (h[0] << (32 - hb)) | h[1]
 
 
-def mc_module(univ, q0s, autos, rsz, merges):
+def mc_module(univ, q0s, autos, rsz, merges, autoset=(), lfs=()):
     hb, hs = UNIV[univ]
     return (
         "MCQF",
@@ -45,6 +47,8 @@ cQ0s == {tlc.tla_val(set(q0s))}
 cAutos == {tlc.tla_val(set(autos))}
 cRsz == {tlc.tla_val(set(rsz))}
 cMerge == {{{", ".join("<<" + tlc.tla_val(set(tuple(h) for h in T)) + ", " + str(q2) + ">>" for T, q2 in merges)}}}
+cAutoSet == {tlc.tla_val(set(autoset))}
+cLFs == {tlc.tla_val(set(tuple(x) for x in lfs))}
 ====
 """,
     )
@@ -63,6 +67,7 @@ INVARIANT LookupExact
 INVARIANT DecodeExact
 INVARIANT AutoKeepsRoom
 PROPERTY SetSemantics
+PROPERTY RebuildResetsLF
 """
     return f"""CONSTANTS
   U <- cU
@@ -75,6 +80,8 @@ PROPERTY SetSemantics
   Queries = {"TRUE" if hv.get("queries") else "FALSE"}
   RszArgs <- cRsz
   MergeOps <- cMerge
+  AutoSet <- cAutoSet
+  LFs <- cLFs
   NPARTS = {nparts}
   PART = {part}
   EmitLayout = {"TRUE" if hb <= 8 else "FALSE"}
@@ -144,6 +151,10 @@ class Ctx:
             qf.resize(None if o[1] == 0 else o[1])
         elif nm == "chk":
             qf.check_alt(hval(self.hb, o[1]))
+        elif nm == "auto":      # the setters are operations
+            qf.auto_expand = o[1] == "T"
+        elif nm == "lf":
+            qf.max_load_factor = o[1] / o[2]
         elif nm == "mrg":
             second = self.QF(quotient=o[2], auto_expand=False)
             for h in sorted(hval(self.hb, x) for x in o[1]):
@@ -277,6 +288,8 @@ class Ctx:
         t.check(qf.load_factor == cnt / qf.num_elements, "C14", "C14.load_factor.qf", ENGINE, lambda: rp(load_factor=qf.load_factor), sig)
         if qf.quotient != exp["q"]:
             t.add_drift(ENGINE, {"cfg": c, "history": hist, "op": o, "expected_q": exp["q"], "observed_q": qf.quotient})
+        if "lf" in exp and (qf.auto_expand != exp["auto"] or qf.max_load_factor != exp["lf"][0] / exp["lf"][1]):
+            t.add_drift(ENGINE, {"cfg": c, "history": hist, "op": o, "expected_settings": [exp["auto"], exp["lf"]], "observed_settings": [qf.auto_expand, qf.max_load_factor]})
         # non-trivial: a shifted slot (=> a shifted run / cluster) or an element stored past the wrap point
         n = qf.num_elements
         if n > 1 << 12:
@@ -322,11 +335,15 @@ def profiles(tier, light=False):
     mC = [([(31, 3), (1, 3)], 3), ([(6, 9), (7, 9), (13, 3)], 4)]
     mD = [([(56, 1), (0, 1)], 3), ([(8, 1), (8, 2), (8, 3)], 5)]
     hvq = dict(q0s=[3], autos=[False], maxq=3, maxel=4, rsz=[], merges=[], histview=True, queries=True)
+    # the two setters as operations: fill with growth off, switch it on (the next add grows a table that is already past the limit); lower /
+    # raise the limit (1/2 is an exact boundary, 1/1 lets the table fill completely); every rebuild puts the default limit back
+    sett = dict(univ="I", q0s=[3], autos=[False, True], maxq=4, maxel=7, rsz=[0, 3], merges=[], nparts=2, autoset=["T", "F"], lfs=[(1, 2), (1, 1)])
     if tier == "quick" and light:
         return [
             dict(hvq, univ="G", nparts=1, maxdepth=4),
             dict(univ="A", q0s=[3], autos=[False, True], maxq=4, maxel=2, rsz=[0, 3, 4], merges=mA[:1], nparts=1),
             dict(univ="B", q0s=[3], autos=[False], maxq=3, maxel=6, rsz=[0, 3], merges=mB[:1], nparts=1),
+            dict(sett, maxel=5, nparts=1),
         ]
     if tier == "quick" or light:      # thorough tier of the cross-cutting properties: the full quick set
         return [
@@ -336,6 +353,7 @@ def profiles(tier, light=False):
             dict(univ="E", q0s=[16], autos=[False], maxq=16, maxel=3, rsz=[16], merges=[], nparts=1),
             dict(univ="F", q0s=[24], autos=[False], maxq=24, maxel=2, rsz=[], merges=[], nparts=1),
             dict(hvq, univ="G", nparts=1, maxdepth=5),       # every history of 4 operations + 1, look-ups included
+            sett,
         ]
     return [
         dict(hvq, univ="H", nparts=1, maxdepth=6),
@@ -346,6 +364,7 @@ def profiles(tier, light=False):
         dict(univ="D", q0s=[3, 5], autos=[False, True], maxq=6, maxel=7, rsz=[0, 3, 4, 5, 6], merges=mD, nparts=8),
         dict(univ="E", q0s=[16], autos=[False, True], maxq=16, maxel=5, rsz=[16], merges=[], nparts=2),
         dict(univ="F", q0s=[24], autos=[False], maxq=24, maxel=4, rsz=[], merges=[], nparts=2),
+        dict(sett, maxq=5, rsz=[0, 3, 4], merges=[([(28, 1), (28, 2), (0, 1), (4, 1), (8, 1)], 3)], nparts=8),
     ]
 
 
@@ -353,8 +372,8 @@ def run(focus, tier, seed):
     total = Tally(focus)
     jobs = []
     for p in profiles(tier, focus in ("C05", "C14", "C19")):
-        mod = mc_module(p["univ"], p["q0s"], p["autos"], p["rsz"], p["merges"])
-        const = {k: p[k] for k in ("univ", "q0s", "autos", "maxq", "maxel", "rsz")}
+        mod = mc_module(p["univ"], p["q0s"], p["autos"], p["rsz"], p["merges"], p.get("autoset", ()), p.get("lfs", ()))
+        const = {k: p[k] for k in ("univ", "q0s", "autos", "maxq", "maxel", "rsz", "autoset", "lfs") if k in p}
         # design level: TLC checks the invariants on the model
         if not p.get("histview"):
             jobs.append(dict(module=mod, cfg=cfg(p["univ"], p["maxq"], p["maxel"], 1, 0, "mc"), workers=2 if tier == "quick" else 4,
